@@ -24,4 +24,5 @@ if os.path.isdir(bd):
             continue
         m = json.load(open(mp))
         viol = "; ".join("%s (%s)" % (p, ", ".join(r)) for p, r in sorted(m.get("checks_reporting_violation", {}).items())) or "none"
-        print("| %s | %s | %s | %s | %d |" % (sid, m.get("change", ""), viol, ", ".join(m.get("checks_analysis_broken", [])) or "-", len(m.get("checks_passing", []))))
+        br = "; ".join("%s (%s)" % (p_, (m.get("checks_analysis_broken_reason", {}).get(p_, "") or "").replace("ANALYSIS-BROKEN property=%s " % p_, "")[:90].replace("|", "/")) for p_ in m.get("checks_analysis_broken", [])) or "-"
+        print("| %s | %s | %s | %s | %d |" % (sid, m.get("change", "").replace("|", "/")[:260], viol, br, len(m.get("checks_passing", []))))
